@@ -508,7 +508,7 @@ def s4(tier):
                 if (mt or 0) > 10:
                     continue
                 out.append(spec(factors, {'op': 'repeat', 'block': b, 'constraints': cs}, 'S4'))
-    return out + s4_multi(tier)
+    return out + s4_multi(tier) + s4_exclude(tier)
 
 
 def s3_strided(tier):
@@ -528,6 +528,24 @@ def s3_strided(tier):
                     for mt in (None, 6):
                         cs = [{'c': cls, 'k': k, 'factor': 'N', 'level': lv}] + ([{'c': 'MinimumTrials', 'k': mt}] if mt else [])
                         out.append(spec([A, B, N], cross(['A', 'B', 'N'], cr, cs), 'S3s'))
+    return out
+
+
+def s4_exclude(tier):
+    """Repeat / Merge / Nest of an inner block that carries an Exclude of its own (the combinator must keep the exclusion)"""
+    out = []
+    A = basic('A', 2)
+    C = basic('C', 3)
+    O = basic('O', 2)
+    ex = [{'c': 'Exclude', 'factor': 'C', 'level': 'c2'}]
+    for cr, rcc, size in ((['A', 'C'], False, 4), (['C'], False, 2), (['A'], True, 2)):
+        inner = cross(['A', 'C'], cr, ex, rcc)
+        for mt in (None, 2 * size, 2 * size + 1):
+            cs = [{'c': 'MinimumTrials', 'k': mt}] if mt else []
+            out.append(spec([A, C], {'op': 'repeat', 'block': inner, 'constraints': cs}, 'S4'))
+            out.append(spec([A, C], {'op': 'merge', 'blocks': [inner], 'constraints': cs, 'mode': 'repeat'}, 'S4'))
+        if size == 2:
+            out.append(spec([A, C, O], {'op': 'nest', 'outer': cross(['O'], ['O']), 'inner': inner, 'constraints': []}, 'S4'))
     return out
 
 
